@@ -1,4 +1,5 @@
 import DmrVerif.Lemmas.BurstData
+import DmrVerif.Lemmas.BurstProbes
 
 /-!
 # C01 — a burst the library assembles is parsed back identically, and re-assembles
@@ -28,6 +29,33 @@ theorem sync_patterns :
 code word -/
 theorem sync_never_valid_emb :
     syncValues.all (fun v => !qr1676.check (outer16 (natToBits 48 v))) = true := sync_not_emb
+
+/-- **structured centres next to the SYNC patterns** (hardening after seeded change C01-C).  The
+translator records how `Burst.__init__` classifies the 48 centre bits at minimal Hamming distance from
+every SYNC pattern `S`: `S` itself, its 48 single-bit neighbours, for every valid EMB word `E` (all 128
+(cc, PI, LCSS)) the voice-burst centre `E[0:8] ++ S[8:40] ++ E[8:16]`, and the 32 single-bit neighbours
+of `S[8:40]` around the EMB words nearest to the outer bits of `S`.  The model's exact lookup
+`Sync.resolve` decides every recorded centre the same way, and every pattern resolves to itself.
+(A tolerant / masked / prefix comparison in `SyncPatterns` or `Burst.__init__` changes the extracted
+table `resolvedToPattern` and breaks this obligation; its entries with centre ≠ pattern and a QR code
+word in the outer bits are voice bursts with valid EMB on which `voice_emb_roundtrip` fails for the code.) -/
+theorem resolve_probes :
+    resolvedToPattern.all (fun p => Sync.resolve p.1 == .pattern p.2) = true
+    ∧ resolvedToEmbedded.all (fun c => Sync.resolve c == .embedded) = true
+    ∧ syncValues.all (fun v => resolvedToPattern.contains (v, v)) = true := by
+  have h := resolve_probes_ok
+  simp only [resolveProbesChk, Bool.and_eq_true] at h
+  exact ⟨h.1.1, h.1.2, h.2⟩
+
+/-- the outer 16 bits of every SYNC pattern differ from every valid EMB word (the 128 QR(16,7,6) code
+words) in at least two bits, and distance two occurs: a SYNC lookup that forgives two bit errors already
+takes some voice burst with valid EMB for a SYNC burst -/
+theorem sync_emb_margin :
+    embWords.all (fun e => syncValues.all (fun v => decide (2 ≤ hamming (outer16 (natToBits 48 v)) e))) = true
+    ∧ embWords.any (fun e => syncValues.any (fun v => hamming (outer16 (natToBits 48 v)) e == 2)) = true := by
+  have h := sync_emb_margin_ok
+  simp only [syncEmbMarginChk, Bool.and_eq_true] at h
+  exact h
 
 /-- only the all-zero information bits have zero parity, for the slot type's Golay(20,8) and the EMB's
 QR(16,7,6): the "parity field 0 ⇒ regenerate" rule of both constructors can only fire on the zero word
@@ -125,6 +153,42 @@ theorem other_sync_roundtrip (c : Crcs) (v : Bits) (hv : v.length = 216) (s : Na
     ∃ q, Burst.parse c (Burst.voiceFrame v (natToBits 48 s)) bt = .ok q ∧ q.isDataOrControl = false
       ∧ Burst.serialise q = .ok (Burst.voiceFrame v (natToBits 48 s)) :=
   Burst.other_sync_roundtrip c v hv s hs hnv hnd bt hbt
+
+/-! ## object reuse (hardening after seeded change C01-D)
+
+The model is a function of the attribute values, so a re-used burst object cannot remember anything:
+the statements below say which attributes `as_bits` reads and that re-assigning payload, slot type and
+sync pattern on an assembled or parsed burst object yields the freshly assembled burst — to which
+`data_roundtrip` applies.  The real object is compared with this on reuse histories (serialise, change
+fields of the same payload object in place / replace slot type / sync / payload, serialise again) by the
+harness. -/
+
+/-- `as_bits` of a data burst depends on the current slot type, payload, `has_emb`, EMB, sync only -/
+theorem serialise_reads_data (a b : Burst) (ha : a.isDataOrControl = true) (hb : b.isDataOrControl = true)
+    (h1 : a.slotType = b.slotType) (h2 : a.data = b.data) (h3 : a.hasEmb = b.hasEmb) (h4 : a.emb = b.emb)
+    (h5 : a.sync = b.sync) : Burst.serialise a = Burst.serialise b :=
+  Burst.serialise_data_congr a b ha hb h1 h2 h3 h4 h5
+
+/-- `as_bits` of a voice burst depends on the vocoder bits, embedded bits, `has_emb`, EMB, sync only -/
+theorem serialise_reads_voice (a b : Burst) (ha : a.isDataOrControl = false) (hb : b.isDataOrControl = false)
+    (h1 : a.voiceBits = b.voiceBits) (h2 : a.embBits = b.embBits) (h3 : a.hasEmb = b.hasEmb) (h4 : a.emb = b.emb)
+    (h5 : a.sync = b.sync) : Burst.serialise a = Burst.serialise b :=
+  Burst.serialise_voice_congr a b ha hb h1 h2 h3 h4 h5
+
+/-- re-using an assembled burst object: after assigning another payload, its slot type and a sync
+pattern, the object is the burst assembled from those values -/
+theorem reuse_assembled (p1 p2 : Payload) (cc1 cc2 s1 s2 : Nat) (b1 b2 : Burst)
+    (h1 : Burst.build p1 cc1 s1 = .ok b1) (h2 : Burst.build p2 cc2 s2 = .ok b2) :
+    { b1 with sync := .pattern s2, slotType := b2.slotType, data := some p2 } = b2 :=
+  Burst.reassign_is_build p1 p2 cc1 cc2 s1 s2 b1 b2 h1 h2
+
+/-- re-using a parsed data burst object: after the same assignments (and `has_emb = False`) it
+serialises as the freshly assembled burst -/
+theorem reuse_parsed (q b2 : Burst) (p2 : Payload) (cc2 s2 : Nat) (hq : q.isDataOrControl = true)
+    (h2 : Burst.build p2 cc2 s2 = .ok b2) :
+    Burst.serialise { q with sync := .pattern s2, slotType := b2.slotType, data := some p2, hasEmb := false }
+      = Burst.serialise b2 :=
+  Burst.reassign_parsed q b2 p2 cc2 s2 hq h2
 
 /-! ## non-vacuity -/
 
